@@ -66,7 +66,16 @@ class Ctl:
         _tls.rec = rec
         _tls.ctl = self
         try:
-            self._park(rec)
+            # initial wait: never hand the baton back here — a thread that is slow to start may
+            # find that the controller has ALREADY granted it its first turn (resetting `turn` as
+            # _park does would make the controller record a second, spurious 'start' decision)
+            with self.cv:
+                while self.turn != rec['name']:
+                    if self.aborting:
+                        raise _Abort()
+                    self.cv.wait(1.0)
+                if self.aborting:
+                    raise _Abort()
             fn()
         except _Abort:
             pass
